@@ -206,6 +206,40 @@ Proof.
     split; [eapply tr_trans; eauto|auto].
 Qed.
 
+Lemma loop_all_tr tid p order : forall s vs done s' done' v,
+  wf s -> (forall c, c ∈ vs -> cand_fine s c) -> (forall c, c ∈ done -> busy_at s (t_id c)) ->
+  heap s !! tid = Some p -> t_status p = Pending ->
+  evict_all eps s vs order done = (s', done', v) ->
+  tr s s' /\ (forall c, c ∈ done' -> busy_at s' (t_id c)) /\ heap s' !! tid = Some p.
+Proof.
+  induction order as [|x order IH]; intros s vs done s' done' v Hwf Hvs Hdone Hp Hst; simpl.
+  - intros [= <- <- <-]. split; [apply tr_refl, Hwf|auto].
+  - destruct (find_task vs x) as [c|] eqn:Hf; [|intros [= <- <- <-]; split; [apply tr_refl, Hwf|auto]].
+    destruct (loop_step s c tid p vs done x Hwf Hvs Hdone Hp Hst Hf) as (Ht & Hvs' & Hd' & Hp').
+    destruct (stmt_evict_with eps s nsid c None) as [s1 r1]. simpl in *.
+    intros H. destruct (IH _ _ _ _ _ _ (proj1 Ht) Hvs' Hd' Hp' Hst H) as (a & b & c0).
+    split; [eapply tr_trans; eauto|auto].
+Qed.
+
+Lemma do_evictions_tr k s tid p pq a n vs s1 done fits v1 :
+  wf s -> ops s nsid = [] -> (forall c, c ∈ vs -> cand_fine s c) ->
+  heap s !! tid = Some p -> t_status p = Pending ->
+  do_evictions eps E k s p pq a n vs = (s1, done, fits, v1) ->
+  tr s s1 /\ (forall c, c ∈ done -> busy_at s1 (t_id c)) /\ heap s1 !! tid = Some p /\
+  ops s1 nsid = map ev_op done.
+Proof.
+  intros Hwf Hn Hvs Hp Hst Hdo.
+  destruct (do_evictions_spec eps E _ _ _ _ _ _ _ _ _ _ _ Hn Hdo) as (_ & _ & _ & _ & Hops & _).
+  unfold do_evictions in Hdo. destruct (at_topo a && negb (is_reclaim k)).
+  - destruct (evict_all eps s vs (at_order a) []) as [[s1' done'] v'] eqn:Hl. injection Hdo as <- <- <- <-.
+    apply (loop_all_tr tid p) in Hl as (a1 & a2 & a3); auto. intros c Hc; inversion Hc.
+  - destruct (is_reclaim k).
+    + destruct (evict_loop_rec eps s p (future_idle n) vs (at_order a) []) as [[[s1' done'] av] v'] eqn:Hl.
+      injection Hdo as <- <- <- <-. apply (loop_rec_tr tid p) in Hl as (a1 & a2 & a3); auto. intros c Hc; inversion Hc.
+    + destruct (evict_loop_pre eps E s pq p (at_node a) vs (at_order a) []) as [[s1' done'] v'] eqn:Hl.
+      injection Hdo as <- <- <- <-. apply (loop_pre_tr tid p) in Hl as (a1 & a2 & a3); auto. intros c Hc; inversion Hc.
+Qed.
+
 (* ---- one node attempt ---- *)
 Lemma cand_ok_busy k s p pq c : cand_ok E k s p pq c = true -> busy (t_status c).
 Proof.
@@ -243,26 +277,8 @@ Proof.
   assert (Hvs : forall c, c ∈ vs -> cand_fine s c).
   { intros c Hc. apply victims_subset in Hc. apply omap_find_in in Hc. apply node_cands_in in Hc as [[i Hi] Hok].
     split; [apply (copy_agree s _ _ _ _ Hwf Hnode Hi)|apply (cand_ok_busy _ _ _ _ _ Hok)]. }
-  (* the loop *)
-  assert (Hloop : forall s1 done fits v1,
-     (if is_reclaim k
-      then let '(s1, done, avail, v) := evict_loop_rec eps s p (future_idle n) vs (at_order a) [] in
-           (s1, done, less_equal eps (t_init p) avail DZero && queue_allocatable E s1 pq p, v)
-      else let '(s1, done, v) := evict_loop_pre eps E s pq p (at_node a) vs (at_order a) [] in
-           (s1, done, preemptor_fits eps E s1 pq p (at_node a), v)) = (s1, done, fits, v1) ->
-     tr s s1 /\ (forall c, c ∈ done -> busy_at s1 (t_id c)) /\ heap s1 !! tid = Some p /\
-     ops s1 nsid = map ev_op done).
-  { intros s1 done fits v1. destruct (is_reclaim k).
-    - destruct (evict_loop_rec eps s p (future_idle n) vs (at_order a) []) as [[[s1' done'] av] v'] eqn:Hl.
-      intros [= <- <- <- <-]. pose proof Hl as Hl2.
-      apply (loop_rec_tr tid p) in Hl as (a1 & a2 & a3); auto; [|intros c Hc; inversion Hc].
-      apply evict_loop_rec_spec in Hl2 as (new & -> & _ & _ & _ & _ & h5 & _). rewrite Hn in h5. simpl in *. auto.
-    - destruct (evict_loop_pre eps E s pq p (at_node a) vs (at_order a) []) as [[s1' done'] v'] eqn:Hl.
-      intros [= <- <- <- <-]. pose proof Hl as Hl2.
-      apply (loop_pre_tr tid p) in Hl as (a1 & a2 & a3); auto; [|intros c Hc; inversion Hc].
-      apply evict_loop_pre_spec in Hl2 as (new & -> & _ & _ & _ & _ & h5 & _). rewrite Hn in h5. simpl in *. auto. }
-  destruct (if is_reclaim k then _ else _) as [[[s1 done] fits] v1].
-  destruct (Hloop _ _ _ _ eq_refl) as (Ht1 & Hb1 & Hp1 & Ho1). clear Hloop.
+  destruct (do_evictions eps E k s p pq a n vs) as [[[s1 done] fits] v1] eqn:Hdo.
+  destruct (do_evictions_tr _ _ tid _ _ _ _ _ _ _ _ _ Hwf Hn Hvs Hp Hst Hdo) as (Ht1 & Hb1 & Hp1 & Ho1).
   (* discarding the node statement from a state whose nsid operations are the evictions made so far *)
   assert (Hdisc : forall sx, tr s1 sx -> ops sx nsid = ops s1 nsid -> heap sx !! tid = Some p \/ (exists p', heap sx !! tid = Some p' /\ t_status p' = Pending) ->
             tr s (stmt_discard eps sx nsid) /\ exists p', heap (stmt_discard eps sx nsid) !! tid = Some p' /\ t_status p' = Pending).
